@@ -73,7 +73,7 @@ pub fn eval(c: &Sx) -> String {
     let c2 = c.clone();
     let (tx, rx) = std::sync::mpsc::channel();
     std::thread::spawn(move || { let _ = tx.send(eval_raw(&c2)); });
-    rx.recv_timeout(std::time::Duration::from_secs(HANG_SECS)).unwrap_or_else(|_| "(res (hang)) (store) (heap ok) (gen ok)".into())
+    rx.recv_timeout(std::time::Duration::from_secs(HANG_SECS)).unwrap_or_else(|_| "(res (hang)) (store) (creason 1) (heap ok) (gen ok)".into())
 }
 
 fn eval_raw(c: &Sx) -> String {
@@ -103,7 +103,7 @@ fn eval_raw(c: &Sx) -> String {
     if replayed != recorded {
         // the implementation no longer follows the recorded trace: report where it departs
         let k = replayed.iter().zip(recorded.iter()).position(|(a, b)| a != b).unwrap_or(replayed.len().min(recorded.len()));
-        return format!("(res (diverged {} {})) {} (heap ok) (gen ok)", k, replayed.get(k).cloned().unwrap_or_else(|| "end".into()), store_sx());
+        return format!("(res (diverged {} {})) {} (creason 1) (heap ok) (gen ok)", k, replayed.get(k).cloned().unwrap_or_else(|| "end".into()), store_sx());
     }
-    format!("(res {}) {} (heap ok) (gen ok)", result, store_sx())
+    format!("(res {}) {} (creason 1) (heap ok) (gen ok)", result, store_sx())
 }
